@@ -79,9 +79,24 @@ def site_holds(site, func, atoms, env, ignore=()):
     return True
 
 
-def equivalent(sites, func, atoms, required, ignore=(), feasible=None):
+def equivalent(sites, func, atoms, required, ignore=(), feasible=None, free_unknown=False):
     """Does `some site is reached` coincide with required(env) for every (feasible) truth assignment?
-    -> (True, None) | (False, counterexample env) | (None, unknown atom text)"""
+    -> (True, None) | (False, counterexample env) | (None, unknown atom text)
+    free_unknown: a test the rule does not know is taken as an independent condition (it may hold or not): if the
+    result then differs from the required function for some value of it, the sites depend on an extra condition."""
+    if free_unknown:
+        extra = {}
+        for _ in range(4):
+            at2 = Atoms(**{**atoms.patterns, **extra})
+            v, info = equivalent(sites, func, at2, required, ignore, feasible)
+            if v is not None or not isinstance(info, str):
+                if v is False and extra and isinstance(info, dict):
+                    info = {k: (val if not k.startswith("X") else f"{extra[k]} = {val}") for k, val in info.items()}
+                return v, info
+            if len(info) >= 80:
+                return None, info
+            extra[f"X{len(extra)}"] = info
+        return None, info
     names = list(atoms.patterns)
     try:
         for values in itertools.product((False, True), repeat=len(names)):
